@@ -11,6 +11,7 @@ from typing import Any, Dict, Iterable, List, Optional
 from ..core import Prop, REPO
 from .. import celrun
 from . import c03_ast as A
+from .c03_lits import literal_spellings
 
 # ------------------------------------------------------------------------------------------
 # running both runners
@@ -59,6 +60,30 @@ def run_one(src: str, runner: str, bindings: Dict[str, Any], package: Optional[s
         return "EXC RecursionError"
     except Exception as ex:  # noqa
         return f"EXC {type(ex).__name__}"
+
+
+class mem_cap:
+    """cap the address space while the implementation runs: `bytes(9223372036854775807)`-style inputs (sequence
+    repetition, huge allocations) then end in MemoryError in both runners instead of exhausting the machine"""
+    CAP = 8 * 2**30
+
+    def __enter__(self):
+        import resource
+        self.old = resource.getrlimit(resource.RLIMIT_AS)
+        soft, hard = self.old
+        try:
+            resource.setrlimit(resource.RLIMIT_AS, (self.CAP if hard == resource.RLIM_INFINITY else min(self.CAP, hard), hard))
+        except (ValueError, OSError):
+            pass
+        return self
+
+    def __exit__(self, *a):
+        import resource
+        try:
+            resource.setrlimit(resource.RLIMIT_AS, self.old)
+        except (ValueError, OSError):
+            pass
+        return False
 
 
 def is_value(o: str) -> bool:
@@ -449,19 +474,23 @@ class C03(Prop):
             feats = rng.sample(feats, min(len(feats), 700))
         cases += feats
         # (b) type-directed random expressions
-        n = 1100 if quick else 60000
+        n = 1100 if quick else 40000
         g = A.Gen(rng)
         for _ in range(n):
             d = rng.choice([1, 2, 2, 3, 3, 4, 4, 5, 6])
             cases.append({"kind": "expr", "ast": g.expr(d)})
         # (c) the model's fragment, denser (ints, bools, strings, lists, null; macros; absorbing contexts)
         gm = FragGen(rng)
-        for _ in range(900 if quick else 30000):
+        for _ in range(900 if quick else 20000):
             cases.append({"kind": "expr", "ast": gm.expr(rng.choice([1, 2, 3, 3, 4, 5]))})
         # (d) absorbing contexts around each error leaf
         for leaf in ERR_LEAVES:
             for ctx in CONTEXTS:
                 cases.append({"kind": "text", "src": ctx.replace("@", "(" + leaf + ")"), "binds": "std", "package": None})
+        # (d') literal spellings, alone and as an operand
+        for t in literal_spellings(rng, 120 if quick else 1500):
+            cases.append({"kind": "text", "src": t, "binds": {}, "package": None})
+            cases.append({"kind": "text", "src": f"[{t}, {t}].exists(x, x == {t}) || {t} == {t}", "binds": {}, "package": None})
         # (e) primitives on the model's pool (driver fidelity + laws)
         prims = []
         for op, (_fn, ar) in PRIM_OPS.items():
@@ -511,8 +540,9 @@ class C03(Prop):
         if c["kind"] == "law":
             return self._impl_law(c)
         src, bd, pkg = self._src_binds(c)
-        i = run_one(src, "I", bd, pkg)
-        k = run_one(src, "C", bd, pkg)
+        with mem_cap():
+            i = run_one(src, "I", bd, pkg)
+            k = run_one(src, "C", bd, pkg)
         out = f"I={i} || C={k}"
         c["_impl"] = out
         return out
@@ -522,7 +552,8 @@ class C03(Prop):
         fn = base_functions[c["fn"]]
         args = [_eval_ctor(LAW_POOL[i]) for i in c["args"]]
         try:
-            v = fn(*args)
+            with mem_cap():
+                v = fn(*args)
         except RecursionError:
             out = "raise RecursionError"
         except Exception as ex:  # noqa
